@@ -1,12 +1,16 @@
 (* C06 -- thread pool: every task handed over is executed exactly once; wait is a barrier;
    changing the limit / freeing the pool loses no task and joins every worker.  Statements only.
    Model: MPSV.Conc.PoolModel (labelled transition system following threading.c operation by
-   operation; unbounded workers and tasks; spurious wake-ups; `run init tr = Some s` = s is
-   reachable by the trace tr).  `run_d` = the same with the limit lowered / the pool freed only
-   when busy_counter = 0 and the queue is empty (what the solver does: always after a wait).
+   operation; unbounded workers and tasks; spurious wake-ups; NESTED ASSIGN: a task body, on a worker
+   or inline in the client, may call assign on the same pool (queue path, or inline with unbounded
+   nesting when pool->n = 1 and not strict_async); `run init tr = Some s` = s is reachable by the
+   trace tr).  `run_d` = the same with the limit lowered / the pool freed only when busy_counter = 0
+   and the queue is empty (what the solver does: always after a wait).  `init_r` = the pool with
+   fixes/C06_limit_while_busy.patch applied (the worker leaving through the bottom of the main loop
+   gives its busy slot back).  `assigned s` = every task handed over so far by ANY thread.
    Tie to the C code: trace validation of the real pool under the scheduler shim (checks/C06.py). *)
 From Coq Require Import List ZArith Bool Arith Permutation.
-From MPSV Require Import Conc.PoolModel Conc.PoolWitness Conc.PoolProps Conc.PoolProgress Conc.PoolAsync.
+From MPSV Require Import Conc.PoolModel Conc.PoolWitness Conc.PoolProps Conc.PoolNested Conc.PoolProgress Conc.PoolRank Conc.PoolAsync.
 Import ListNotations.
 
 (* nothing is lost or duplicated: the tasks handed over are, as a multiset, the ones still with the
@@ -51,6 +55,22 @@ Theorem C06_pool_wait_barrier_step : forall tr s s' t,
 Proof. exact pool_wait_barrier_step. Qed.
 Print Assumptions C06_pool_wait_barrier_step.
 
+(* ... stated on the events: whichever thread emitted `assign t` (the client's script, a task body on a
+   worker, a task body running inline), t has been executed and has finished when wait returns *)
+Theorem C06_pool_wait_barrier_spawned : forall tr s w t,
+  run init tr = Some s -> pc0 s = CRet EWaitRet -> In (LEv w (EAssign t)) tr -> In t (executed s).
+Proof. exact pool_wait_barrier_spawned. Qed.
+Print Assumptions C06_pool_wait_barrier_spawned.
+
+(* ... and nothing can be handed over behind the waiter's back: from the moment the test in wait has
+   succeeded (under work_completed_mutex) until wait has returned no worker is inside a task body and
+   the assign event of a worker is not enabled *)
+Theorem C06_pool_no_late_spawn : forall tr s w t,
+  run init tr = Some s -> waitdone (pc0 s) = true ->
+  running s = [] /\ step s (LEv (S w) (EAssign t)) = None.
+Proof. exact pool_no_late_spawn. Qed.
+Print Assumptions C06_pool_no_late_spawn.
+
 (* after mps_thread_pool_free returned every worker ever created has exited and was joined;
    the tasks lost are exactly those still queued when free was called (none after a wait) *)
 Theorem C06_pool_free_joins_all : forall tr s,
@@ -74,6 +94,53 @@ Theorem C06_pool_limit_while_running_refuted :
     busy_counter s = 1%Z /\ running s = [] /\ queue s = [].
 Proof. exact pool_limit_while_running_refuted. Qed.
 Print Assumptions C06_pool_limit_while_running_refuted.
+
+(* PROGRESS WITHOUT ANY DISCIPLINE.  On every trace (limit lowered or pool freed while tasks run, nested
+   assign, ...) a state in which nothing but spurious wake-ups is enabled, other than the final state
+   after free, is a dead state: the client is inside the cond_wait of mps_thread_pool_wait (not
+   signalled) and every worker has exited or is asleep (not signalled).  The pool can be stuck ONLY
+   there (and it can: C06_pool_limit_while_running_refuted). *)
+Theorem C06_pool_stuck_only_in_wait : forall tr s,
+  run init tr = Some s -> pc0 s <> CDone ->
+  (forall l s', step s l = Some s' -> is_spurious l = true) ->
+  dead_state s = true /\ exists a, pc0 s = CWaitBlocked a.
+Proof. exact pool_stuck_only_in_wait. Qed.
+Print Assumptions C06_pool_stuck_only_in_wait.
+
+(* Hence mps_thread_pool_free and mps_thread_pool_set_concurrency_limit never block themselves, even on
+   a busy pool: while the client is anywhere else than asleep in wait, some step other than a spurious
+   wake-up is enabled (in particular every pthread_join of mps_thread_free is eventually enabled). *)
+Theorem C06_pool_api_never_blocks : forall tr s,
+  run init tr = Some s -> pc0 s <> CDone -> (forall a, pc0 s <> CWaitBlocked a) ->
+  exists l s', is_spurious l = false /\ step s l = Some s'.
+Proof. exact pool_api_never_blocks. Qed.
+Print Assumptions C06_pool_api_never_blocks.
+
+(* THE REPAIR (fixes/C06_limit_while_busy.patch, `init_r`): the repaired pool is deadlock free with NO
+   precondition: in every reachable state other than the final one some step other than a spurious
+   wake-up is enabled ... *)
+Theorem C06_pool_repaired_no_stuck_state : forall tr s,
+  run init_r tr = Some s -> pc0 s <> CDone ->
+  exists l s', is_spurious l = false /\ step s l = Some s'.
+Proof. exact pool_repaired_no_stuck_state. Qed.
+Print Assumptions C06_pool_repaired_no_stuck_state.
+
+(* ... and safety is unchanged: conservation, at most once, busy_counter exact, barrier, free joins all *)
+Theorem C06_pool_repaired_safety : forall tr s,
+  run init_r tr = Some s ->
+  Permutation (assigned s) (pending s ++ queue s ++ running s ++ executed s) /\
+  NoDup (pending s ++ queue s ++ running s ++ executed s) /\
+  busy_counter s = Z.of_nat (nbusy s) /\
+  (pc0 s = CRet EWaitRet -> Permutation (assigned s) (executed s) /\ queue s = [] /\ running s = []) /\
+  (pc0 s = CDone -> Forall (fun x => w_pc x = WExited /\ w_joined x = true) (workers s) /\
+                    Permutation (assigned s) (queue s ++ executed s)).
+Proof. exact pool_repaired_safety. Qed.
+Print Assumptions C06_pool_repaired_safety.
+
+Theorem C06_pool_repaired_wait_barrier_spawned : forall tr s w t,
+  run init_r tr = Some s -> pc0 s = CRet EWaitRet -> In (LEv w (EAssign t)) tr -> In t (executed s).
+Proof. exact pool_repaired_wait_barrier_spawned. Qed.
+Print Assumptions C06_pool_repaired_wait_barrier_spawned.
 
 (* the way the solver uses it (limit lowered / pool freed on a quiescent pool only) is safe:
    no freed worker is ever counted in busy_counter *)
@@ -110,25 +177,29 @@ Theorem C06_pool_no_stuck_worker : forall tr s,
 Proof. exact pool_no_stuck_worker. Qed.
 Print Assumptions C06_pool_no_stuck_worker.
 
-(* RANKING FUNCTION: while the client is inside wait, every step other than a spurious wake-up, by
-   whichever thread, strictly lowers rank = 10*|queue| + sum of the workers' distances to their resting
-   point + the client's; a spurious wake-up raises it by at most spurious_cost = 16 (it only re-checks
-   and goes back to sleep).  Holds in every state, reachable or not. *)
+(* RANKING FUNCTION: while the client is inside wait, every step other than a spurious wake-up or a nested
+   assign event, by whichever thread, strictly lowers rank = 10*|queue| + sum of the workers' distances to
+   their resting point (8 more per suspended caller of an inline nested assign) + the client's; a spurious
+   wake-up raises it by at most spurious_cost = 16 (it only re-checks and goes back to sleep), a task body
+   handing over a new task by at most spawn_cost = 32.  Holds in every state, reachable or not, repaired or not. *)
 Theorem C06_pool_wait_rank_decreases : forall s l s',
   waiting (pc0 s) = true -> step s l = Some s' ->
-  (is_spurious l = false -> (rank s' < rank s)%nat) /\
-  (is_spurious l = true -> (rank s' <= rank s + spurious_cost)%nat).
+  (is_spurious l = false -> is_spawn l = false -> (rank s' < rank s)%nat) /\
+  (is_spurious l = true -> (rank s' <= rank s + spurious_cost)%nat) /\
+  (is_spawn l = true -> (rank s' <= rank s + spawn_cost)%nat).
 Proof. exact rank_step. Qed.
 Print Assumptions C06_pool_wait_rank_decreases.
 
 (* TERMINATION OF WAIT.  Fairness assumptions, explicit: (progress) whenever a step other than a
    spurious wake-up is enabled the system eventually takes one -- no fairness BETWEEN threads is
-   needed since every such step lowers the rank; (spurious) only k spurious wake-ups occur.  By
-   C06_pool_no_stuck_state such a step exists until wait has returned, and by the bound below at
-   most rank s + 16 k of them can be taken while the client is still inside wait: wait returns. *)
+   needed since every such step lowers the rank or is a nested assign; (spurious) only k spurious
+   wake-ups occur; (spawns) only m tasks are handed over by task bodies.  By C06_pool_no_stuck_state
+   (C06_pool_repaired_no_stuck_state for the repaired pool) such a step exists until wait has returned,
+   and by the bound below at most rank s + 16 k + 33 m of them can be taken while the client is still
+   inside wait: wait returns. *)
 Theorem C06_pool_wait_terminates : forall tr s s',
   run s tr = Some s' -> stays_waiting s tr ->
-  (n_other tr <= rank s + spurious_cost * n_spurious tr)%nat.
+  (n_other tr <= rank s + spurious_cost * n_spurious tr + (spawn_cost + 1) * n_spawn tr)%nat.
 Proof. exact pool_wait_terminates. Qed.
 Print Assumptions C06_pool_wait_terminates.
 
@@ -198,4 +269,56 @@ Example C06_ex_async :
   match run init example_async with
   | Some s => pc0 s = CRet EWaitRet /\ assigned s = [7%nat] /\ strict s = true /\ length (workers s) = 1%nat
   | None => False end /\ interp (fun t => [t; t]) example_async = [7%nat; 7%nat].
+Proof. vm_compute. repeat split. Qed.
+
+(* ---- nested assign: non-vacuity on traces recorded from the REAL pool (Conc/PoolWitness.v) ---- *)
+(* a task body on a worker hands a task over through the queue; the barrier hypothesis is reached with the
+   spawned task handed over by worker 1 or 2 (not the client) and executed *)
+Example C06_ex_nested_barrier :
+  match run init (firstn 61 example_nested) with
+  | Some s => pc0 s = CRet EWaitRet /\ length (assigned s) = 2%nat /\
+              (exists w, In (LEv (S w) (EAssign 0%nat)) (firstn 61 example_nested)) /\ In 0%nat (executed s)
+  | None => False end.
+Proof.
+  vm_compute. split; [reflexivity|]. split; [reflexivity|]. split; [| tauto].
+  exists 0%nat. repeat (first [left; reflexivity | right]).
+Qed.
+Example C06_ex_nested_runs : is_some (run_d init example_nested) = true.
+Proof. vm_compute. reflexivity. Qed.
+(* inline nesting on the client's stack, depth 3: task 2 begins while 1 and 0 are suspended *)
+Example C06_ex_inline_depth3 :
+  match run init (firstn 13 example_inline) with
+  | Some s => pc0 s = CInlStart 2%nat [1%nat; 0%nat] /\ pending s = [2; 1; 0]%nat
+  | None => False end.
+Proof. vm_compute. repeat split. Qed.
+(* inline nesting ON A WORKER (strict_async cleared while the task was queued) *)
+Example C06_ex_worker_inline :
+  match run init (firstn 28 example_worker_inline) with
+  | Some s => exists x, nth_error (workers s) 0 = Some x /\ w_pc x = WRunStart 1%nat [0%nat] /\ w_busy x = true
+  | None => False end.
+Proof. vm_compute. eexists; repeat split. Qed.
+(* waitdone (hypothesis of C06_pool_no_late_spawn) occurs after a nested round *)
+Example C06_ex_waitdone :
+  match run init (firstn 59 example_nested) with Some s => waitdone (pc0 s) = true | None => False end.
+Proof. vm_compute. reflexivity. Qed.
+(* the repaired pool: limit lowered while worker 2 holds a task; it gives its slot back (busy_counter 1 -> 0
+   at the bottom exit), the next wait returns and the round completes; the same events are NOT a trace of
+   the unrepaired model, and the refutation witness is not a trace of the repaired one *)
+Example C06_ex_repaired_round :
+  match run init_r example_repaired with
+  | Some s => pc0 s = CDone /\ executed s = [0%nat] /\ busy_counter s = 0%Z | None => False end /\
+  match run init_r (firstn 30 example_repaired) with
+  | Some s => busy_counter s = 1%Z /\ exists x, nth_error (workers s) 1 = Some x /\ w_pc x = WExitLockWC /\ w_alive x = false
+  | None => False end /\
+  run init example_repaired = None /\ run init_r witness_limit_running = None.
+Proof. vm_compute. repeat split. eexists; repeat split. Qed.
+(* the hypothesis of C06_pool_stuck_only_in_wait is met by the refutation witness (a stuck state exists, inside wait) *)
+Example C06_ex_stuck_state :
+  match run init witness_limit_running with
+  | Some s => pc0 s = CWaitBlocked AWait /\ dead_state s = true | None => False end.
+Proof. vm_compute. repeat split. Qed.
+(* a state in which the client is inside mps_thread_free on a busy pool (hypothesis of api_never_blocks) *)
+Example C06_ex_kill_while_busy :
+  match run init (firstn 27 witness_limit_running) with
+  | Some s => pc0 s = CKillJoin [2%nat] ASetLimit /\ busy_counter s = 1%Z | None => False end.
 Proof. vm_compute. repeat split. Qed.
